@@ -50,7 +50,12 @@ def run(ch: Checker) -> None:
             v = Sym(p).value(last[1].value, last[0])
             if isinstance(v, ast.Constant) and v.value is True:
                 n += 1
-                fd = dict(p.facts())
+                sym0 = Sym(p)
+                fd = {}
+                for sidx, (nid, lab) in enumerate(p.steps):
+                    nd = gi.nodes[nid]
+                    if nd.kind == 'test' and lab in (True, False):
+                        fd[norm(sym0.value(nd.ast, sidx))] = lab  # type: ignore[arg-type]
                 t = [k for k, val in fd.items() if val is True and k.replace(' ', '') == 'self._connection_inactive_for()>self.flags.timeout']
                 t += [k for k, val in fd.items() if val is False and k.replace(' ', '') == 'self._connection_inactive_for()<=self.flags.timeout']
                 if not t:
@@ -61,8 +66,12 @@ def run(ch: Checker) -> None:
                     bad = ('is_inactive() returns %s, which does not compare the inactivity with flags.timeout' % norm(v)[:80], p.describe())
     ch.check(bad is None and n > 0, 'C20.1', ia, 'timeout comparison', 'idle requires inactivity > flags.timeout', bad[0] if bad else 'is_inactive never returns True', witness=bad[1] if bad else None)
     cif = prog.own_method('HttpProtocolHandler', '_connection_inactive_for')
-    rets = [norm(s.value).replace(' ', '') for s in walk_no_nested(cif.node) if isinstance(s, ast.Return) and s.value is not None]
-    ch.check(rets == ['time.time()-self.last_activity'], 'C20.1', cif, 'inactivity', 'inactivity = now - last_activity', '_connection_inactive_for returns %s' % rets)
+    gcif = cfg_of(cif, prog, exc_edges=False)
+    rets = []
+    for p in fpaths(gcif):
+        if p.exit_kind == 'return' and p.stmts() and isinstance(p.stmts()[-1][1], ast.Return) and p.stmts()[-1][1].value is not None:
+            rets.append(norm(Sym(p).value(p.stmts()[-1][1].value, p.stmts()[-1][0])).replace(' ', ''))
+    ch.check(bool(rets) and set(rets) == {'time.time()-self.last_activity'}, 'C20.1', cif, 'inactivity', 'inactivity = now - last_activity', '_connection_inactive_for returns %s' % rets)
 
     # ---------------- C20.2
     hph = prog.class_named('HttpProtocolHandler')
